@@ -1338,6 +1338,53 @@ WHY = {
     'G2:sm-cmd-wrap-protected-field-over-65535-encoded': 'btok.h: ERR_OK = the command was encoded and protected; here Lc* is truncated mod 65536 and btokSMCmdUnwrap rejects the result',
 }
 
+def unused_macros(_):
+    """derPSTREnc / derPSTRDec / derOCTDec3 (macros of der.h that no library source uses, through drv/vh_macros.c): the universal tags 0x13 / 0x04,
+    round trip, and refusal of the neighbouring tags -> (calls, [messages])"""
+    L = common.lib('rel')
+    if not L.has('vm_derPSTREnc'):
+        return 0, []
+    bad = []; calls = 0
+    SM = (1 << 64) - 1
+    with vf.Arena(L) as A:
+        for txt in (b'', b'A', b'BY', b"Printable 09 '()+,-./:=?", b'x' * 127, b'y' * 128, b'z' * 300):
+            n = L.sz('vm_derPSTREnc', None, A.buf(txt + b'\0')); calls += 1
+            exp = S_tlv(0x13, txt)
+            if n != len(exp):
+                bad.append('derPSTREnc(0, %r...) = %d, DER PrintableString has %d octets' % (txt[:12], n, len(exp))); continue
+            der = A.buf(n, 0xEE)
+            L.sz('vm_derPSTREnc', der, A.buf(txt + b'\0')); calls += 1
+            if der.get() != exp:
+                bad.append('derPSTREnc(%r...) = %s, DER: %s' % (txt[:12], der.get().hex()[:40], exp.hex()[:40]))
+            val = A.buf(len(txt) + 1, 0xEE); ln = A.buf(8, 0)
+            r = L.sz('vm_derPSTRDec', val, ln, A.buf(exp), len(exp)); calls += 1
+            if r != len(exp) or val.get(len(txt)) != txt or int.from_bytes(ln.get(), 'little') != len(txt):
+                bad.append('derPSTRDec of the PrintableString %r... returned %d / %r' % (txt[:12], r if r != SM else -1, val.get(len(txt))[:12]))
+            for tag in (0x0C, 0x12, 0x14, 0x16, 0x04):
+                wrong = bytes([tag]) + exp[1:]
+                if L.sz('vm_derPSTRDec', A.buf(len(txt) + 1), A.buf(8), A.buf(wrong), len(wrong)) != SM:
+                    bad.append('derPSTRDec accepts tag %#x' % tag)
+                calls += 1
+        for v in (b'', b'\x00', b'\x80', vf.filler('oct3', 127), vf.filler('oct3b', 128)):
+            exp = S_tlv(0x04, v)
+            if L.sz('vm_derOCTDec3', A.buf(exp), len(exp), A.buf(v) if v else A.buf(1), len(v)) != len(exp):
+                bad.append('derOCTDec3 refuses the OCTET STRING %s against its own value' % exp.hex()[:24])
+            if v and L.sz('vm_derOCTDec3', A.buf(exp), len(exp), A.buf(bytes([v[0] ^ 1]) + v[1:]), len(v)) != SM:
+                bad.append('derOCTDec3 accepts another value')
+            for tag in (0x03, 0x05, 0x24):
+                wrong = bytes([tag]) + exp[1:]
+                if L.sz('vm_derOCTDec3', A.buf(wrong), len(wrong), A.buf(v) if v else A.buf(1), len(v)) != SM:
+                    bad.append('derOCTDec3 accepts tag %#x' % tag)
+            calls += 5
+    return calls, bad
+
+def S_tlv(tag, v):
+    n = len(v)
+    if n < 128:
+        return bytes([tag, n]) + v
+    b = n.to_bytes((n.bit_length() + 7) // 8, 'big')
+    return bytes([tag, 0x80 | len(b)]) + b + v
+
 def run(tier):
     import json, subprocess, tempfile
     import build as vbuild
@@ -1356,6 +1403,13 @@ def run(tier):
     for name, p in d['parts'].items():
         chk.part(name, **p)
         chk.cov['distinct_nontrivial'] += p.get('accepted', 0)
+    um = vf.pmap(unused_macros, [0], nproc=1, case_timeout=120)[0]
+    if isinstance(um, dict):
+        chk.violation('macros:crash', {'cfg': 'rel', 'kind': 'unused_macros'}, 'typed DER macros of der.h: %s' % str(um)[-600:])
+    else:
+        chk.part('unused_der_macros', states=3, transitions=um[0], traces_validated_against_impl=um[0], evaluations=um[0])
+        for m in um[1][:4]:
+            chk.violation('macros:' + m.split('(')[0].split(' ')[0], {'cfg': 'rel', 'kind': 'unused_macros'}, m)
     for c in d['capped']:
         chk.cap(c + ' not run: deadline')
     for o, n in d['outcomes'].items():
@@ -1390,6 +1444,9 @@ def replay(rec):
     global CFG
     k = rec.get('kind')
     CFG = rec.get('cfg', CFG)
+    if k == 'unused_macros':
+        um = vf.pmap(unused_macros, [0], nproc=1, case_timeout=120)[0]
+        return (str(um)[-400:] if isinstance(um, dict) else '; '.join(um[1][:3])) or None
     if k == 'der':
         return replay_der(rec)
     if k == 'chr':
